@@ -60,6 +60,16 @@ pub mod model_collections {
         pub fn keys(&self) -> impl Iterator<Item = &K> { self.iter().map(|(k, _)| k) }
         pub fn values(&self) -> impl Iterator<Item = &V> { self.iter().map(|(_, v)| v) }
         pub fn hasher(&self) -> &S { &self.hasher }
+        /// removes and yields every pair (std `drain`)
+        pub fn drain(&mut self) -> std::vec::IntoIter<(K, V)> {
+            let mut out = Vec::with_capacity(CAP);
+            let mut i = 0;
+            while i < CAP {
+                if !self.slots[i].is_null() { out.push(self.take_slot(i)); }
+                i += 1;
+            }
+            out.into_iter()
+        }
         #[inline] fn node(&self, i: usize) -> &Node<K, V> { unsafe { &*self.slots[i] } }
         #[inline] fn node_mut(&mut self, i: usize) -> &mut Node<K, V> { unsafe { &mut *self.slots[i] } }
         fn relocate(&mut self, a: usize, b: usize) {
@@ -199,6 +209,7 @@ pub mod model_collections {
         pub fn len(&self) -> usize { self.map.len() }
         pub fn is_empty(&self) -> bool { self.map.len() == 0 }
         pub fn iter(&self) -> SetIter<'_, T, S> { SetIter { it: self.map.iter() } }
+        pub fn drain(&mut self) -> impl Iterator<Item = T> { self.map.drain().map(|(k, _)| k) }
     }
     impl<'a, T, S> IntoIterator for &'a HashSet<T, S> {
         type Item = &'a T;
